@@ -139,19 +139,22 @@ ResBaseQ(op, a, b, n) ==
     [] op = "pow" -> RPowInt(BaseQ(a), n[1])
 
 -----------------------------------------------------------------------------
-\* transcription of the exponent scaling of the code (Fraction.__mul__/__truediv__)
+\* transcription of the exponent scaling of the code (Fraction.__mul__/__truediv__).  fx = the named deviations that
+\* have been repaired in the tree (status "fixed" in known_findings): a repaired deviation is transcribed as the ideal.
 TruncQ(x) == IF x[1] >= 0 THEN x[1] \div x[2] ELSE -((-x[1]) \div x[2])
 FloatForm(form, n) == form = "float" \/ (form = "np.power" /\ ~RIsInt(n))
-MachScaleE(e, n, form) ==
-  IF FloatForm(form, n) THEN R(TruncQ(RMul(RInt(e[1]), n)), e[2])   \* Fraction(int(num*float), den)
-  ELSE RMul(e, n)
-MachPowEx(ex, n, form) ==
-  Cancel(ExDropZero([i \in DOMAIN ex |-> [u |-> ex[i].u, e |-> MachScaleE(ex[i].e, n, form)]]))
-PowTags(a, n, form) ==
-  IF ~ExSame(MachPowEx(NEx(a), n, form), Cancel(ExScale(NEx(a), n))) THEN {"float_exponent_truncated"} ELSE {}
+MachScaleE(e, n, form, fx) ==
+  IF FloatForm(form, n) /\ "float_exponent_truncated" \notin fx
+  THEN R(TruncQ(RMul(RInt(e[1]), n)), e[2])                         \* before 3073bfc: Fraction(int(num*float), den)
+  ELSE RMul(e, n)                                                   \* pairs, ints, Fractions; floats via the rational they denote
+MachPowEx(ex, n, form, fx) ==
+  Cancel(ExDropZero([i \in DOMAIN ex |-> [u |-> ex[i].u, e |-> MachScaleE(ex[i].e, n, form, fx)]]))
+PowTags(a, n, form, fx) ==
+  IF ~ExSame(MachPowEx(NEx(a), n, form, fx), Cancel(ExScale(NEx(a), n))) THEN {"float_exponent_truncated"} ELSE {}
 
 \* transcription of operator dispatch when the LEFT operand is a NumPy number: ndarray.__op__ hands the operation to
-\* Quantity.__array_ufunc__, whose default branch reads inputs[0].magnitude (named deviation numpy_left_operand;
-\* the reflected operator that handles Python numbers is never reached)
-DispatchTags(side, num) == IF side = "nq" /\ num = "np" THEN {"numpy_left_operand"} ELSE {}
+\* Quantity.__array_ufunc__; before a4bb9e4 its default branch read inputs[0].magnitude (named deviation
+\* numpy_left_operand; the reflected operator that handles Python numbers was never reached)
+DispatchTags(side, num, fx) ==
+  IF side = "nq" /\ num = "np" /\ "numpy_left_operand" \notin fx THEN {"numpy_left_operand"} ELSE {}
 =============================================================================
